@@ -167,7 +167,7 @@ pub enum NodeKind {
         /// C17: yields an item on every poll, forever
         always: bool,
         /// streams: report an exact size_hint
-        hint: bool,
+        hint: u8,
         /// invoke the most recent waker from the destructor
         dropwake: bool,
     },
@@ -784,7 +784,7 @@ impl World {
 pub fn leaf_size_hint(id: NodeId) -> (usize, Option<usize>) {
     try_with(|w| match w.nodes.get(id).map(|n| &n.kind) {
         Some(NodeKind::Leaf { script, pos, always, hint, .. }) => {
-            if *always || !*hint {
+            if *always || *hint == 0 {
                 return (0, None);
             }
             let rest = &script[(*pos).min(script.len())..];
@@ -799,7 +799,13 @@ pub fn leaf_size_hint(id: NodeId) -> (usize, Option<usize>) {
                     _ => {}
                 }
             }
-            (n, Some(n))
+            if *hint == 2 {
+                // honest but inexact, as after a `filter`: the lower bound under-reports,
+                // the upper bound leaves room
+                (n / 2, Some(n + 1 + n % 3))
+            } else {
+                (n, Some(n))
+            }
         }
         _ => (0, None),
     })
